@@ -94,8 +94,11 @@ Fixpoint trace_predict (st : gst) (tr : list (op * obs))
   end.
 
 (* helpers for the case printer *)
-Definition cfg (w : nat) (baseA baseB wseqA wseqB : N) (preA preB : list N) : config :=
+Definition cfgs (w : nat) (baseA baseB wseqA wseqB : N) (preA preB shA shB : list N) : config :=
   mkcfg w (fun s => match s with A => baseA | B => baseB end)
         (fun s => match s with A => wseqA | B => wseqB end)
-        (fun s => match s with A => preA | B => preB end).
+        (fun s => match s with A => preA | B => preB end)
+        (fun s => match s with A => shA | B => shB end).
+Definition cfg (w : nat) (baseA baseB wseqA wseqB : N) (preA preB : list N) : config :=
+  cfgs w baseA baseB wseqA wseqB preA preB [] [].
 Definition rc (s : side) (e elow q : N) (k : kind) : rec := mkrec (secret_of s e) elow q k.
